@@ -103,6 +103,11 @@ class PrintExec(ME.MiniExec):
             if op in ('+', '-'):
                 return a + b if op == '+' else a - b
             raise F.AnalysisBroken('operator %s with side effects not modelled' % op)
+        if k == 'ConditionalOperator':
+            c = self.val(e['c'][0], env)
+            if c is None:
+                raise F.AnalysisBroken('selector `%s` not evaluable' % F.src(e['c'][0])[:60])
+            return self.val(e['c'][1] if c else e['c'][2], env)
         if k == 'UnaryOperator' and e['op'] == '!':
             v = self.val(e['c'][0], env)
             return None if v is None else int(not v)
